@@ -72,6 +72,44 @@ Theorem C08_pick_sound : forall hdrs d,
 Proof. exact pick_sound. Qed.
 Print Assumptions C08_pick_sound.
 
+(* (e) the whole transfer, for unary and streaming calls alike ([sys_deadline]:
+   caller context -> headersFromContext -> wire -> contextFromHeaders -> handler
+   context; both kinds run the same two functions, at their own call sites).
+   For every caller deadline t0 + r (r any int64 duration: already expired,
+   sub-millisecond, up to any number of hours), every clock reading t1 >= t0 of
+   the server and every caller metadata that does not itself use the reserved
+   key: the handler has a deadline, not earlier than the caller's minus 1 ms and
+   not later than the caller's plus the transit time t1 - t0; an expired or
+   closer-than-1ms deadline is conveyed as exactly 1 ms from the server's now *)
+Theorem C08_sys_deadline : forall (k : rkind) t0 t1 r md,
+  t0 <= t1 -> r <= maxInt64 ->
+  (forall key v, In (key, v) md -> lower key <> timeout_key) ->
+  exists d, sys_deadline k t0 t1 md (Some (t0 + r)) = Some (t1 + d) /\
+    (1000000 <= r -> (t0 + r) - 1000000 <= t1 + d <= (t0 + r) + (t1 - t0)) /\
+    (r < 1000000 -> d = 1000000).
+Proof.
+  intros k t0 t1 r md Ht Hr Hmd. exists (encode_ms r * 1000000).
+  split; [exact (sys_some k t0 t1 md r Hr Hmd)|].
+  pose proof (transfer_bounds r). split; intros; lia.
+Qed.
+Print Assumptions C08_sys_deadline.
+
+(* ... and when the caller has no deadline the handler has none *)
+Theorem C08_sys_none : forall (k : rkind) t0 t1 md,
+  (forall key v, In (key, v) md -> lower key <> timeout_key) ->
+  sys_deadline k t0 t1 md None = None.
+Proof. exact sys_none. Qed.
+Print Assumptions C08_sys_none.
+
+(* a header value put on the wire by any peer means what it says for both
+   kinds: the handler's deadline is its own now + the parsed duration of the
+   first grpc-timeout header (any letter case) that is a value, or none *)
+Theorem C08_sys_foreign : forall t1 hdrs,
+  server_deadline t1 hdrs = match pick hdrs with Some d => Some (t1 + d) | None => None end /\
+  forall t0 md dl, sys_deadline KUnary t0 t1 md dl = sys_deadline KStream t0 t1 md dl.
+Proof. intros t1 hdrs. split; [reflexivity|]. intros. apply sys_kinds_alike. Qed.
+Print Assumptions C08_sys_foreign.
+
 (* non-vacuity: concrete instances of the hypotheses and of both branches *)
 Example C08_ex_saturates : parse (B"99999999H") = Some maxInt64.
 Proof. vm_compute. reflexivity. Qed.
@@ -82,4 +120,8 @@ Proof. vm_compute. split; reflexivity. Qed.
 Example C08_ex_transfer : parse (encode 18000000000000) = Some 18000000000000.
 Proof. vm_compute. reflexivity. Qed.
 Example C08_ex_pick : pick [(B"x", B"1S"); (B"GRPC-Timeout", B"5S")] = Some 5000000000.
+Proof. vm_compute. reflexivity. Qed.
+Example C08_ex_sys : sys_deadline KStream 100 350 [(B"x-a", B"v")] (Some (100 + 18000000000000)) = Some (350 + 18000000000000).
+Proof. vm_compute. reflexivity. Qed.
+Example C08_ex_sys_expired : sys_deadline KUnary 100 100 [] (Some (100 - 3600000000000)) = Some (100 + 1000000).
 Proof. vm_compute. reflexivity. Qed.
